@@ -6,6 +6,7 @@ import (
 	"go/scanner"
 	"go/token"
 	"regexp"
+	"strings"
 	"sync"
 
 	"gmslverif/fw"
@@ -24,6 +25,7 @@ var (
 )
 
 var identRE = regexp.MustCompile(`[A-Za-z_][A-Za-z0-9_]*`)
+var qualifiedRE = regexp.MustCompile(`[A-Za-z0-9_)]\.([A-Za-z_][A-Za-z0-9_]*)`)
 
 // KeepName reports whether an identifier occurs anywhere in the rule sources.
 func KeepName(name string) bool {
@@ -44,9 +46,18 @@ func KeepName(name string) bool {
 				if tok == token.EOF {
 					break
 				}
-				if tok == token.IDENT || tok == token.STRING || tok == token.CHAR {
+				switch {
+				case tok == token.IDENT:
+					// identifiers of the checker's own code name nothing in the repository
+				case tok == token.STRING && !strings.ContainsAny(lit, " \t"):
+					// a name, a dotted path or a signature fragment
 					for _, w := range identRE.FindAllString(lit, -1) {
 						keepWords[w] = true
+					}
+				case tok == token.STRING:
+					// prose: only qualified names ("gmsl.checkRoomID", "(*eventV3).RoomID(") name functions
+					for _, m := range qualifiedRE.FindAllStringSubmatch(lit, -1) {
+						keepWords[m[1]] = true
 					}
 				}
 			}
